@@ -144,6 +144,16 @@ func TestVerifC07Flv(t *testing.T) {
 			vC07FlvUseVideo(f)
 			return err != nil
 		}},
+		{name: "flv.audio.dec", modelled: true, gen: vC07FlvAudioTag, run: func(b []byte) bool {
+			p, _ := NewAudioPackager()
+			_, err := p.Decode(b)
+			return err != nil
+		}},
+		{name: "flv.video.dec", modelled: true, gen: vC07FlvVideoTag, run: func(b []byte) bool {
+			p, _ := NewVideoPackager()
+			_, err := p.Decode(b)
+			return err != nil
+		}},
 		// enum helper outside the translator's subset: swept without a model
 		{name: "flv.AudioFrameTrait.String", sweep: 1, run: func(b []byte) bool { _ = AudioFrameTrait(b[0]).String(); return false }},
 	}
@@ -184,5 +194,5 @@ func TestVerifC07Flv(t *testing.T) {
 			return append(out, make([]byte, n-24)...)
 		}},
 	}
-	vC07Drive(t, decs, helpers, fams, 800, 60000)
+	vC07Drive(t, decs, helpers, fams, 800, 10000)
 }
